@@ -174,6 +174,10 @@ func (l *GradientLimit) OnSample(startTime int64, rtt int64, inFlight int, didDr
 	// allow it to be reduced by more than half to avoid aggressive load-shedding due to
 	// outliers.
 	gradient := math.Max(0.5, math.Min(1.0, l.rttTolerance*float64(rttNoLoad)/float64(rtt)))
+	if math.IsNaN(gradient) {
+		// a zero RTT sample (0/0) carries no queueing information
+		gradient = 1.0
+	}
 
 	var newLimit float64
 	// Reduce the limit aggressively if there was a drop
